@@ -34,6 +34,28 @@ PROPS = {
         design_ref="DESIGN.md §5 C11",
         assumptions=[],
     ),
+    "C04": dict(
+        units=["qc"],
+        level="proof",
+        level_text="Deductive proof (Verus) over the real text of View::verify, ReplicaCommit::verify, ReplicaTimeout::verify, "
+                   "CommitQC::{new,add,verify}, TimeoutQC::{new,add,verify,weight}, Signers::{new,len,is_empty,weight,&,&=,|=}, "
+                   "ProposalJustification/LeaderProposal/ReplicaNewView/FinalBlock::verify, Payload::hash: each verify() returns Ok "
+                   "IF AND ONLY IF the spec predicate `valid` written from the statement holds (chain+epoch, bitmap length = committee, "
+                   "signer weight >= n-f, pairwise-disjoint non-empty signer sets for timeout certificates, nested certificates valid, "
+                   "aggregate signature over exactly the selected (vote,key) pairs, payload hash = header); add() refuses non-members, "
+                   "repeated signers, other votes, bad signatures and then leaves the certificate unchanged, accepts every vote that "
+                   "satisfies those conditions (completeness of add), and changes exactly one bit. For all committee sizes and weights.",
+        level_note="Trusted (listed per run in evidence): BLS via blst (Signed::verify, AggregateSignature::{add,verify_messages} are "
+                   "uninterpreted predicates), keccak, bit_vec::BitVec, std iterator adapters behind 5 pipeline templates whose closures "
+                   "are the repository's and are verified, BTreeMap as an ordered map with distinct keys, Schedule accessors (proved in "
+                   "unit leader). One statement is abstracted and NOT verified: the nested flat_map key-selection expression in "
+                   "TimeoutQC::verify (assumed to produce all (vote,key) pairs). Only Ok-ness is specified, not which error variant. "
+                   "The 'assembled certificate verifies' direction is proved per add() step; the aggregation axiom linking agg_add to "
+                   "agg_ok is cryptographic and not assumed, so end-to-end completeness of verify after adds is not claimed.",
+        technique="contract-based deductive verification (Verus on extracted real functions; iterator pipelines through assumed templates with verified closures)",
+        design_ref="DESIGN.md §5 C04",
+        assumptions=[],
+    ),
 }
 
 NOT_APPLICABLE = {
